@@ -22,10 +22,10 @@ fn node_doc(next: u32, limit: u32, with_invoke: bool, invoke_src: bool) -> Strin
             r##"<state id="inv">
    {inv}
    <transition event="toggle" target="run"/>
-   <transition event="timer"><send event="timer" delay="1ms"/></transition>
+   <transition event="timer"><send event="timer" delay="1ms"/><send event="poke" target="#_kid"/></transition>
    <transition event="ping"><send event="pong" targetexpr="_event.origin"/></transition>
   </state>"##,
-            inv = if invoke_src { "<invoke autoforward=\"false\" type=\"scxml\" src=\"c17child.scxml\"/>".to_string() } else { format!("<invoke autoforward=\"false\"><content>{}</content></invoke>", CHILD_DOC) }
+            inv = if invoke_src { "<invoke id=\"kid\" autoforward=\"false\" type=\"scxml\" src=\"c17child.scxml\"/>".to_string() } else { format!("<invoke id=\"kid\" autoforward=\"false\"><content>{}</content></invoke>", CHILD_DOC) }
         )
     } else {
         String::new()
@@ -36,7 +36,7 @@ fn node_doc(next: u32, limit: u32, with_invoke: bool, invoke_src: bool) -> Strin
  <state id="idle"><transition event="go" target="run"/></state>
  <state id="run">
   <onentry><send event="timer" delay="1ms"/></onentry>
-  <transition event="timer" cond="n &lt; {limit}"><assign location="n" expr="n + 1"/><send event="timer" delay="1ms"/><send event="ping" targetexpr="'#_scxml_' + toString(next)"/><send event="late" delay="2ms" targetexpr="'#_scxml_' + toString(next)"/></transition>
+  <transition event="timer" cond="n &lt; {limit}"><assign location="n" expr="n + 1"/><send event="timer" delay="1ms"/><send event="ping" targetexpr="'#_scxml_' + toString(next)"/><send event="late" delay="2ms" targetexpr="'#_scxml_' + toString(next)"/><send event="poke" target="#_kid"/><send event="poke2" delay="1ms" target="#_kid"/></transition>
   <transition event="timer" target="done"/>
   <transition event="ping"><send event="pong" targetexpr="_event.origin"/></transition>
   {toggle}
